@@ -241,6 +241,30 @@ static void judgePostsolve(const LPModel& M, const Truth& T, SPxMainSM<double>& 
    if(M.m <= 60 && !nonsingularQ(basisMatrix(M, bind))) R.set(std::string("basis.singular.") + what, "postsolved basis matrix is exactly singular");
 }
 
+// Best normalised ray of an LP: optimise c.d over the recession cone intersected with the box [-1,1]^n (always feasible and
+// bounded).  The LP is dual infeasible iff the optimum is nonzero; |optimum| / sum|c| is the rate at which the best ray improves.
+static bool bestRayRate(const LPModel& L, Q& rate)
+{
+   LPModel D = L;
+   Q csum = 0;
+   for(int j = 0; j < D.n; j++)
+   {
+      D.lo[j] = isNInf(L.lo[j]) ? Q(-1) : Q(0);
+      D.up[j] = isPInf(L.up[j]) ? Q(1) : Q(0);
+      csum += qabs(L.obj[j]);
+   }
+   for(int i = 0; i < D.m; i++)
+   {
+      if(!isNInf(L.lhs[i])) D.lhs[i] = 0;
+      if(!isPInf(L.rhs[i])) D.rhs[i] = 0;
+   }
+   D.offset = 0;
+   RefResult rd = refSolve(D);
+   if(!rd.certified || rd.status != REF_OPTIMAL) return false;
+   rate = csum == 0 ? Q(0) : Q(qabs(rd.objval) / csum);
+   return true;
+}
+
 static PRes c08Once(const LPModel& M, const Truth& T, bool keepbounds, uint32_t pseed, uint64_t vseed, bool count)
 {
    Sink& S = sink();
@@ -286,7 +310,17 @@ static PRes c08Once(const LPModel& M, const Truth& T, bool keepbounds, uint32_t 
       {
          if(count) S.count("c08.verdicts_checked");
          if(T.status == REF_OPTIMAL) R.set(std::string("verdict.") + resName((int)res), std::string("simplifier says ") + resName((int)res) + ", but the LP has the certified finite optimum " + ds(dq(T.objval)));
-         if(res == SIMP::UNBOUNDED && T.status == REF_INFEASIBLE) R.set("verdict.UNBOUNDED-on-infeasible", "simplifier says UNBOUNDED, the LP is certified infeasible");
+         if(T.status == REF_INFEASIBLE)
+         {
+            // the property groups the verdicts "unbounded/dual-infeasible": on an infeasible LP such a verdict is true iff the LP is
+            // dual infeasible as well, i.e. iff it has a ray that improves the objective
+            Q rate;
+            if(bestRayRate(M, rate))
+            {
+               if(rate == 0) R.set(std::string("verdict.") + resName((int)res) + "-on-dual-feasible", std::string("simplifier says ") + resName((int)res) + ", but the LP is infeasible and has no improving ray (it is dual feasible)");
+               else if(count) S.count("c08.unbounded_verdict_on_primal_and_dual_infeasible");
+            }
+         }
       }
       return R;
    }
@@ -345,27 +379,13 @@ static PRes c08Once(const LPModel& M, const Truth& T, bool keepbounds, uint32_t 
          // makes a reduced LP exactly unbounded along a ray that improves the objective at a rate of 1e-15: no floating-point solver
          // working with opttol would follow it.  Judge unboundedness by the best normalised ray: min c.d over the recession cone
          // intersected with the box [-1,1]^n; the class is "unbounded" only if that rate exceeds 1e-9 * sum|c|.
-         LPModel D = Rm;
-         Q csum = 0;
-         for(int j = 0; j < D.n; j++)
-         {
-            D.lo[j] = isNInf(Rm.lo[j]) ? Q(-1) : Q(0);
-            D.up[j] = isPInf(Rm.up[j]) ? Q(1) : Q(0);
-            csum += qabs(Rm.obj[j]);
-         }
-         for(int i = 0; i < D.m; i++)
-         {
-            if(!isNInf(Rm.lhs[i])) D.lhs[i] = 0;
-            if(!isPInf(Rm.rhs[i])) D.rhs[i] = 0;
-         }
-         D.offset = 0;
-         RefResult rd = refSolve(D);
-         if(!rd.certified || rd.status != REF_OPTIMAL)
+         Q rate;
+         if(!bestRayRate(Rm, rate))
          {
             if(count) S.count("c08.reduced_not_certified");
             break;
          }
-         if(qabs(rd.objval) <= csum / Q(1000000000))
+         if(rate <= Q(1) / Q(1000000000))
          {
             if(count) S.count("c08.reduced_unbounded_only_by_rounding");
             break;
